@@ -166,11 +166,30 @@ func evalC16Compile(k c16Case) []pbt.Violation {
 		if r.Exit != 0 {
 			return []pbt.Violation{{Signature: "compile:cli-fails-where-library-succeeds", Detail: fmt.Sprintf("word=%v exit %d: %s", word, r.Exit, clip(string(r.Stdout)+string(r.Stderr), 300))}}
 		}
+		// several flags may name one directory: it must then hold the union of those targets' files
 		trees[i] = map[string]map[string][]byte{}
+		byDir := map[string][]string{}
+		var dirs []string
 		for _, l := range k.Subset {
-			trees[i][l] = cli.ReadTree(filepath.Join(dir, outDir[l]))
-			if d := inproc.FilesEqual(ref.Files[l], trees[i][l]); d != "" {
-				vs = append(vs, pbt.Violation{Signature: "compile:tree-differs-from-generators:" + l, Detail: fmt.Sprintf("word=%v: %s", word, d)})
+			if len(byDir[outDir[l]]) == 0 {
+				dirs = append(dirs, outDir[l])
+			}
+			byDir[outDir[l]] = append(byDir[outDir[l]], l)
+		}
+		for _, od := range dirs {
+			want := map[string][]byte{}
+			for _, l := range byDir[od] {
+				for n, b := range ref.Files[l] {
+					want[n] = b
+				}
+			}
+			label := byDir[od][0]
+			if len(byDir[od]) > 1 {
+				label = "shared-directory"
+			}
+			trees[i][od] = cli.ReadTree(filepath.Join(dir, od))
+			if d := inproc.FilesEqual(want, trees[i][od]); d != "" {
+				vs = append(vs, pbt.Violation{Signature: "compile:tree-differs-from-generators:" + label, Detail: fmt.Sprintf("word=%v, %v -> %s: %s", word, byDir[od], od, d)})
 			}
 		}
 		// nothing else: only in.dsl, out/<requested>, and the trace file
@@ -216,9 +235,14 @@ func evalC16Compile(k c16Case) []pbt.Violation {
 			}
 		}
 	}
-	for _, l := range k.Subset {
-		if d := inproc.FilesEqual(trees[0][l], trees[1][l]); d != "" {
-			vs = append(vs, pbt.Violation{Signature: "compile:spellings-differ:" + l, Detail: "`fin-protoc compile ...` and `fin-protoc ...` wrote different trees: " + d})
+	var ods []string
+	for od := range trees[0] {
+		ods = append(ods, od)
+	}
+	sort.Strings(ods)
+	for _, od := range ods {
+		if d := inproc.FilesEqual(trees[0][od], trees[1][od]); d != "" {
+			vs = append(vs, pbt.Violation{Signature: "compile:spellings-differ", Detail: "`fin-protoc compile ...` and `fin-protoc ...` wrote different trees under " + od + ": " + d})
 		}
 	}
 	return vs
@@ -243,7 +267,7 @@ func TestC16(t *testing.T) {
 	c.Check(t, func(rt *rapid.T) {
 		n++
 		if rapid.IntRange(0, 3).Draw(rt, "mode") == 0 {
-			p := dsl.GenProgram(rt, dsl.GenCfg{MaxPackets: 4, Avoid: avoid, Shapes: true, AnyOrder: true})
+			p := dsl.GenProgram(rt, dsl.GenCfg{MaxPackets: 4, Avoid: avoid, Shapes: true, AnyOrder: true, KeywordNames: true})
 			sub := drawSubset(rt)
 			// the order of flags on the command line is free
 			sub = rapid.Permutation(sub).Draw(rt, "flag_order")
@@ -253,6 +277,17 @@ func TestC16(t *testing.T) {
 				names := rapid.Permutation([]string{"format", "compile", "help", "out dir", "completion", "gen"}).Draw(rt, "out_names")
 				k.OutNames = names[:len(sub)]
 				c.Class("compile-into-directories-named-like-subcommands")
+			}
+			// several output flags naming one directory
+			if len(sub) >= 2 && rapid.IntRange(0, 3).Draw(rt, "shared_out_dir") == 0 {
+				k.OutNames = make([]string, len(sub))
+				nshare := rapid.IntRange(2, len(sub)).Draw(rt, "nshared")
+				for i := range k.OutNames {
+					if i < nshare {
+						k.OutNames[i] = "gen"
+					}
+				}
+				c.Class("compile-several-targets-into-one-directory")
 			}
 			if k.Stale {
 				c.Class("compile-into-stale-directory")
@@ -273,6 +308,15 @@ func TestC16(t *testing.T) {
 		if rapid.IntRange(0, 2).Draw(rt, "invalid") == 0 {
 			text = mutate(rt, text)
 			cls = "format-mutant"
+		}
+		if cls == "format-valid" && rapid.IntRange(0, 5).Draw(rt, "already_canonical") == 0 {
+			// a file that is already in canonical layout, as an editor leaves it: with a final
+			// newline or other blanks around the text
+			if f, err, pm, _ := inproc.Format(text); err == nil && pm == "" && strings.TrimSpace(f) != "" {
+				ws := []string{"", "\n", "\n\n", " ", "\t\n", "\r\n"}
+				text = rapid.SampledFrom(ws).Draw(rt, "outer_pre") + f + rapid.SampledFrom(ws).Draw(rt, "outer_post")
+				cls = "format-canonical-text-with-outer-blanks"
+			}
 		}
 		text = strings.ReplaceAll(text, "\x00", "?")
 		if strings.TrimSpace(text) == "" {
